@@ -115,6 +115,12 @@ def contracts():
       params=dict(ts=TTd(), n=TInt), ensures=['us(result) == us(ts) * n'])
     c('num_by_timespan', name='date_time.num_by_timespan/int',
       params=dict(n=TInt, ts=TTd()), ensures=['us(result) == us(ts) * n'])
+    # the ratio of two timespans is the float quotient of their lengths
+    c('div_timespans', params=dict(ts1=TTd(), ts2=TTd()),
+      raises={'ZeroDivisionError': 'us(ts2) == 0'},
+      ensures=['us(ts2) != 0',
+               'result == fl(fl(0.0 + us(ts1)) / us(ts2))'])
+    c('utctz', params={}, ensures=['us(result) == 0'])
     # ---- zone views -----------------------------------------------------
     # d.utc is the same instant expressed at offset zero
     c('utc', params=dict(dt=declared('utc', 'dt')),
